@@ -6,8 +6,8 @@ import lib
 
 MANIFEST = {
  "category": "proof",
- "text": "Coq theorems (Properties/C11.v) about hand-written Gallina models of makeKeySafe (url.PathEscape), ForkId.ForkIdString/forkId/writeForkIndex, encodeJournalName, journal file naming (Fork.updateId, NewChunk, Metadata.journalFile, mrjob) and the journal routing of Node.refreshState (jobJournalRe, parseRunFilename, find, getFork, getChunk, Metadata.cache): key escaping and the journal encoding are prefix codes hence injective on all byte strings; distinct forks of any fork family (any nesting of static/dynamic arrays and maps, any lengths, any keys) get distinct id strings, hence distinct directories and journal tokens; parsing a printed journal name returns exactly the writer's node name, fork token, chunk, uniquifier and file for every node name; getFork returns exactly the fork with the parsed token for every fork order; an update with another attempt's uniquifier is not recorded. Tied to the Go code on every run: replacer pairs, the journal regular expression, prefixes and journaled file names are regenerated from the Go AST and the proofs re-checked against them; model and implementation are compared on exhaustive short keys, enumerated fork-id shapes, journal names and generated pipestance skeletons built from real Node/Fork/Chunk/Metadata objects whose journal files are really created (extracted OCaml + kernel vm_compute sample); the property is read directly on the implementation (distinct directories/journal names, route(parse(name)) = writer) as the search for a failing input; thorough tier runs real mrp pipestances over adversarial key sets and nestings.",
- "note": "Trusted: Coq kernel; extraction cross-checked in-kernel on a sample; extractconsts; the hook VerifTree.Route repeats the control flow of Node.refreshState (the real refreshState runs in the end-to-end tier). Guards: fork ranges non-empty (an empty fork runs no job); node fqids distinct and not of the form top.fqid of another node; journal names without newline and below the 255-byte file name limit; Go regexp modelled for the one pattern only.",
+ "text": "Coq theorems (Properties/C11.v) about hand-written Gallina models of makeKeySafe (url.PathEscape), ForkId.ForkIdString/forkId/writeForkIndex, encodeJournalName, journal file naming (Fork.updateId, NewChunk, Metadata.journalFile, mrjob) and the journal routing of Node.refreshState (jobJournalRe, parseRunFilename, getFork, getChunk, Metadata.cache). C11_path_escape_inj / C11_journal_encode_inj: key escaping and the journal encoding are prefix codes, hence injective on all byte strings, and journal tokens never contain '.' or '/'. C11_fork_id_inj / C11_fork_journal_token_inj: two forks of one call (any nesting depth, static or dynamic arrays of any length, maps over any keys, ranges depending on the indices above) with equal id string - equal directory, equal journal token - have equal indices and keys. C11_parse_print_journal: the model of jobJournalRe applied to the name a job writes returns exactly the writer's node name (any bytes), fork token, chunk, uniquifier and file. C11_get_fork_exact / C11_routing_exact_within_node: for every order of the fork list getFork returns the fork owning the parsed token, and chunk, attempt and file are the writer's. C11_stale_uniquifier_ignored: an update of another attempt is not recorded. Tied to the Go code on every run: replacer pairs, the journal regular expression, prefixes and journaled file names are regenerated from the Go AST and the proofs re-checked against them (C11_constants_as_modelled); model and implementation are compared on exhaustive short keys, enumerated fork-id shapes, structured and malformed journal names and generated pipestance skeletons built from real Node/Fork/Chunk/Metadata objects whose journal files are really created (extracted OCaml + kernel vm_compute sample); the property is read directly on the implementation (distinct directories / journal names, route(name written) = writer) as the search for a failing input; the thorough tier runs real mrp pipestances over adversarial key sets, array lengths crossing decimal widths, chunk counts and nestings and checks completion, exact keys and fork directories.",
+ "note": "Trusted: Coq kernel; extraction cross-checked in-kernel on a sample; extractconsts; the hook's VerifTree.Route repeats the parse/find/getFork/getChunk sequence of Node.refreshState (the real refreshState runs in the end-to-end tier). Not proved: the node lookup Node.find (name equality over the node tree; needs node fqids distinct and none equal to top-fqname.fqid of another - tested by the oracle only) and the corollary 'a mapped call returns exactly its keys' (observed end to end only). Guards: fork ranges non-empty (a fork over an empty collection runs no job; ForkIdString can return the empty string for it); source call mode not single; journal names without newline and within the 255-byte file name limit; Go regexp modelled for the one pattern only; '$' in invocation source is subject to mrp's environment expansion and is excluded from end-to-end keys.",
  "technique": "Coq proof (prefix-code injectivity by kernel computation over all byte pairs, mixed-radix/digit-run induction over fork part lists, recogniser correctness for the journal pattern) + differential correspondence + implementation-side routing oracle",
 }
 
